@@ -8,15 +8,31 @@ open Cnfgen.Gen
 
 /-! ### options -/
 
-theorem dnum_std_action (o : OptSpec) (h : o.standard = true) : (o.action == "PHPArgs") = false := by
+theorem dnum_std_basic (o : OptSpec) (h : o.standard = true) :
+    o.nested = false ∧ (o.action == "PHPArgs") = false ∧ (o.action == "compose_two_parsers") = false ∧
+      o.group = "" := by
   unfold OptSpec.standard at h
   simp only [Bool.and_eq_true] at h
-  have := h.1.1.1.2
-  simpa using this
+  have h1 := h.1.1.1.1.1.1.1
+  have h2 := h.1.1.1.1.1.2
+  have h3 := h.1.1.1.1.2
+  have h4 := h.1.1.1.2
+  refine ⟨?_, ?_, ?_, ?_⟩
+  · simpa using h1
+  · simpa using h2
+  · simpa using h3
+  · simpa using h4
+
+theorem dnum_std_action (o : OptSpec) (h : o.standard = true) : (o.action == "PHPArgs") = false :=
+  (dnum_std_basic o h).2.1
+
+theorem dnum_std_action2 (o : OptSpec) (h : o.standard = true) :
+    (o.action == "compose_two_parsers") = false :=
+  (dnum_std_basic o h).2.2.1
 
 theorem dnum_bindOne_flag (o : OptSpec) (hs : o.standard = true) (ha : o.arity = .zero) :
     bindOne o [] = .ok [(o.dest, o.flagVal)] := by
-  unfold bindOne; simp [dnum_std_action o hs, ha]
+  unfold bindOne; simp [dnum_std_action o hs, dnum_std_action2 o hs, ha]
 
 theorem dnum_consumeOpt_flag (o : OptSpec) (hs : o.standard = true) (ha : o.arity = .zero)
     (chunk : List String) : consumeOpt o chunk = .ok ([(o.dest, o.flagVal)], chunk) := by
@@ -24,11 +40,11 @@ theorem dnum_consumeOpt_flag (o : OptSpec) (hs : o.standard = true) (ha : o.arit
 
 theorem dnum_bindOne_some (o : OptSpec) (t : String) (v : Val) (hs : o.standard = true)
     (ha : o.arity = .one) (hc : convertOne o t = some v) : bindOne o [t] = .ok [(o.dest, v)] := by
-  unfold bindOne; simp [dnum_std_action o hs, ha, hc]
+  unfold bindOne; simp [dnum_std_action o hs, dnum_std_action2 o hs, ha, hc]
 
 theorem dnum_bindOne_none (o : OptSpec) (t : String) (hs : o.standard = true)
     (ha : o.arity = .one) (hc : convertOne o t = none) : bindOne o [t] = .error .cliError := by
-  unfold bindOne; simp [dnum_std_action o hs, ha, hc]
+  unfold bindOne; simp [dnum_std_action o hs, dnum_std_action2 o hs, ha, hc]
 
 theorem dnum_optOf (s : CliSpec) (t : String) (o : OptSpec) (h : optOf s t = some o) :
     o ∈ s.opts ∧ o.positional = false := by
@@ -231,7 +247,8 @@ theorem dnum_parseSegs (segs : List (OptSpec × List String))
         ¬ ((segs.flatMap (·.2)).length = ps.length ∧ dnum_AllConv ps (segs.flatMap (·.2)))
     | .ok b => (segs.flatMap (·.2)).length = ps.length ∧ dnum_AllConv ps (segs.flatMap (·.2)) ∧
         (∀ k v, dnum_PosBind ps (segs.flatMap (·.2)) k v → (k, v) ∈ b) ∧
-        (∀ k v, (k, v) ∈ b → dnum_PosBind ps (segs.flatMap (·.2)) k v ∨ ∃ x ∈ segs, k = x.1.dest) := by
+        (∀ k v, (k, v) ∈ b → dnum_PosBind ps (segs.flatMap (·.2)) k v ∨
+          ∃ x ∈ segs, k = x.1.dest ∧ v = x.1.flagVal) := by
   induction segs generalizing ps with
   | nil =>
     unfold parseSegs
@@ -290,7 +307,7 @@ theorem dnum_parseSegs (segs : List (OptSpec × List String))
             · exact Or.inl ((dnum_PosBind_append chunk _ ps hle k v).2 (Or.inr h))
             · exact Or.inr ⟨x, by simp [hx], hk⟩
           · exact Or.inl ((dnum_PosBind_append chunk _ ps hle k v).2 (Or.inl ((hbs k v).1 hkv)))
-          · exact Or.inr ⟨(o, chunk), by simp, hkv.1⟩
+          · exact Or.inr ⟨(o, chunk), by simp, hkv⟩
 
 /-! ### the whole parser -/
 
@@ -307,7 +324,7 @@ theorem dnum_positionals (s : CliSpec) (hn : numericOnly s = true) :
   intro p hp
   unfold positionals at hp
   rw [List.mem_filter] at hp
-  have := dnum_numericOnly s hn p hp.1
+  have := dnum_numericOnly s hn p (List.mem_filter.1 hp.1).1
   exact ⟨this.1, this.2.1 hp.2⟩
 
 theorem dnum_requiredSeen (s : CliSpec) (hn : numericOnly s = true) (b : Ns) : requiredSeen s b = true := by
@@ -356,9 +373,18 @@ theorem dnum_segments (s : CliSpec) (argv : List String) (hf : inFragment s argv
       rw [hc] at ht
       simp at ht
 
-theorem dnum_parseArgs (s : CliSpec) (hn : numericOnly s = true) (argv : List String)
+theorem dnum_mutexOK (segs : List (OptSpec × List String)) (h : ∀ x ∈ segs, x.1.group = "") :
+    mutexOK segs = true := by
+  unfold mutexOK
+  rw [List.all_eq_true]
+  intro p hp
+  rw [List.all_eq_true]
+  intro q _
+  simp [h p hp]
+
+theorem dnum_parseRaw (s : CliSpec) (hn : numericOnly s = true) (argv : List String)
     (hf : inFragment s argv = true) :
-    match parseArgs s argv with
+    match parseRaw s argv with
     | .error e => e = .cliError ∧
         ¬ ((argTokens s argv).length = (positionals s).length ∧
             dnum_AllConv (positionals s) (argTokens s argv))
@@ -366,7 +392,7 @@ theorem dnum_parseArgs (s : CliSpec) (hn : numericOnly s = true) (argv : List St
         dnum_AllConv (positionals s) (argTokens s argv) ∧
         (∀ k v, dnum_PosBind (positionals s) (argTokens s argv) k v → (k, v) ∈ b) ∧
         (∀ k v, (k, v) ∈ b → dnum_PosBind (positionals s) (argTokens s argv) k v ∨
-          ∃ o ∈ s.opts, o.positional = false ∧ k = o.dest) := by
+          ∃ o ∈ s.opts, o.positional = false ∧ k = o.dest ∧ v = o.flagVal) := by
   obtain ⟨chunk, segs, hseg, htoks, hopts⟩ := dnum_segments s argv hf
   have hsegs : ∀ x ∈ segs, x.1.standard = true ∧ x.1.arity = .zero := by
     intro x hx
@@ -374,10 +400,12 @@ theorem dnum_parseArgs (s : CliSpec) (hn : numericOnly s = true) (argv : List St
     have := dnum_numericOnly s hn x.1 h.1
     exact ⟨this.1, (this.2.2 h.2).1⟩
   have hps := dnum_positionals s hn
-  unfold parseArgs
+  have hmut : mutexOK segs = true :=
+    dnum_mutexOK segs (fun x hx => (dnum_std_basic x.1 (hsegs x hx).1).2.2.2)
+  unfold parseRaw
   generalize positionals s = ps at hps ⊢
   rw [hseg, htoks]
-  simp only [dnum_requiredSeen s hn, if_true]
+  simp only [hmut, Bool.not_true, Bool.false_eq_true, if_false, dnum_requiredSeen s hn, if_true]
   have hcp := dnum_consumePos ps hps chunk segs.isEmpty
   cases hr : consumePos ps chunk segs.isEmpty with
   | error e =>
@@ -420,8 +448,73 @@ theorem dnum_parseArgs (s : CliSpec) (hn : numericOnly s = true) (argv : List St
         rcases hkv with hkv | hkv
         · rcases h4 k v hkv with h | ⟨x, hx, hk⟩
           · exact Or.inl ((dnum_PosBind_append chunk _ ps hle k v).2 (Or.inr h))
-          · exact Or.inr ⟨x.1, (hopts x hx).1, (hopts x hx).2, hk⟩
+          · exact Or.inr ⟨x.1, (hopts x hx).1, (hopts x hx).2, hk.1, hk.2⟩
         · exact Or.inl ((dnum_PosBind_append chunk _ ps hle k v).2 (Or.inl ((hbs k v).1 hkv)))
+
+/-! ### nothing to expand -/
+
+theorem dnum_expand_id (s : CliSpec) (b : Ns) (h : ∀ k v, (k, v) ∈ b → ∀ l, v ≠ .toks l) :
+    expand s b = .ok b := by
+  induction b with
+  | nil => rfl
+  | cons x b ih =>
+    obtain ⟨k, v⟩ := x
+    have ih' := ih (fun k' v' hm => h k' v' (List.mem_cons_of_mem _ hm))
+    have hv := h k v (by simp)
+    cases v <;> first | exact absurd rfl (hv _) | (unfold expand; rw [ih'])
+
+theorem dnum_convertOne_noToks (o : OptSpec) (t : String) (v : Val) (h : convertOne o t = some v)
+    (l : List String) : v ≠ .toks l := by
+  unfold convertOne at h
+  split at h
+  · split at h
+    · cases h; intro hh; cases hh
+    · cases h
+  · cases hv : validate o.ty t with
+    | none => simp [hv] at h
+    | some i =>
+      simp [hv] at h
+      subst h; intro hh; cases hh
+
+theorem dnum_constVal_noToks (e : Expr) (l : List String) : constVal e ≠ .toks l := by
+  cases e <;> simp [constVal]
+
+theorem dnum_flagVal_noToks (o : OptSpec) (l : List String) : o.flagVal ≠ .toks l := by
+  unfold OptSpec.flagVal
+  split
+  · intro hh; cases hh
+  · split
+    · intro hh; cases hh
+    · exact dnum_constVal_noToks _ l
+
+theorem dnum_parseArgs_eq (s : CliSpec) (hn : numericOnly s = true) (argv : List String)
+    (hf : inFragment s argv = true) : parseArgs s argv = parseRaw s argv := by
+  have h := dnum_parseRaw s hn argv hf
+  unfold parseArgs
+  cases hr : parseRaw s argv with
+  | error e => rfl
+  | ok b =>
+    rw [hr] at h
+    simp only at h ⊢
+    apply dnum_expand_id
+    intro k v hkv l
+    rcases h.2.2.2 k v hkv with ⟨p, _, _, hc⟩ | ⟨o, _, _, _, hv⟩
+    · exact dnum_convertOne_noToks _ _ _ hc l
+    · rw [hv]; exact dnum_flagVal_noToks o l
+
+theorem dnum_parseArgs (s : CliSpec) (hn : numericOnly s = true) (argv : List String)
+    (hf : inFragment s argv = true) :
+    match parseArgs s argv with
+    | .error e => e = .cliError ∧
+        ¬ ((argTokens s argv).length = (positionals s).length ∧
+            dnum_AllConv (positionals s) (argTokens s argv))
+    | .ok b => (argTokens s argv).length = (positionals s).length ∧
+        dnum_AllConv (positionals s) (argTokens s argv) ∧
+        (∀ k v, dnum_PosBind (positionals s) (argTokens s argv) k v → (k, v) ∈ b) ∧
+        (∀ k v, (k, v) ∈ b → dnum_PosBind (positionals s) (argTokens s argv) k v ∨
+          ∃ o ∈ s.opts, o.positional = false ∧ k = o.dest ∧ v = o.flagVal) := by
+  rw [dnum_parseArgs_eq s hn argv hf]
+  exact dnum_parseRaw s hn argv hf
 
 /-! ### reading the namespace -/
 
@@ -529,7 +622,7 @@ theorem numeric_parse_values (s : CliSpec) (hn : numericOnly s = true) (hwf : sp
     apply dnum_lookup_unique
     · exact hin _ _ ⟨p, hp, rfl, hc⟩
     · intro v' hv'
-      rcases hout _ _ hv' with ⟨q, hq, hd, hcq⟩ | ⟨o, ho, hpos, hd⟩
+      rcases hout _ _ hv' with ⟨q, hq, hd, hcq⟩ | ⟨o, ho, hpos, hd, _⟩
       · have := dnum_zip_unique _ _ hnd p q hp hq hd
         subst this
         rw [hc] at hcq
@@ -541,5 +634,147 @@ theorem numeric_parse_values (s : CliSpec) (hn : numericOnly s = true) (hwf : sp
         apply this
         rw [← hd]
         exact List.mem_map_of_mem (f := fun x : OptSpec => x.dest) (List.of_mem_zip hp).1
+
+/-! ### `compose_two_parsers`: the numeric branch -/
+
+/-- the sub-parser chosen when the first token is a number has positionals `[n, d]`: one typed token and an
+optional typed token -/
+def numericBranch (s : CliSpec) (c n d : OptSpec) : Prop :=
+  positionals s = [c] ∧ c.action = "compose_two_parsers" ∧ c.arity = .star ∧ c.nested = false ∧
+  (∃ p1 p2, c.compose = [p1, p2] ∧ subPositionals s p1 = [n, d]) ∧
+  composeOpt s c.dest = some c ∧
+  n.arity = .one ∧ d.arity = .opt ∧ n.action ≠ "PHPArgs" ∧ n.action ≠ "compose_two_parsers" ∧
+  d.action ≠ "PHPArgs" ∧ d.action ≠ "compose_two_parsers" ∧ n.dest ≠ d.dest ∧
+  (∀ o ∈ s.opts, o.positional = false → o.required = false)
+
+theorem dnum_segments_args (s : CliSpec) (toks : List String) (harg : ∀ t ∈ toks, classify s t = .arg) :
+    segments s toks = .ok (toks, []) := by
+  induction toks with
+  | nil => rfl
+  | cons t ts ih =>
+    unfold segments
+    rw [ih (fun u hu => harg u (List.mem_cons_of_mem _ hu)), harg t (by simp)]
+
+theorem dnum_bindOne_compose (c : OptSpec) (ha : c.action = "compose_two_parsers") (toks : List String) :
+    bindOne c toks = .ok [(c.dest, .toks toks)] := by
+  unfold bindOne
+  simp [ha]
+
+theorem dnum_consumePos_star (c : OptSpec) (ha : c.action = "compose_two_parsers") (har : c.arity = .star)
+    (toks : List String) : consumePos [c] toks true = .ok ([], [(c.dest, .toks toks)]) := by
+  unfold consumePos
+  simp [matchPartial, counts, har, applyPos, dnum_bindOne_compose c ha]
+
+theorem dnum_parseRaw_compose (s : CliSpec) (c : OptSpec) (hp : positionals s = [c])
+    (ha : c.action = "compose_two_parsers") (har : c.arity = .star)
+    (hreq : ∀ o ∈ s.opts, o.positional = false → o.required = false)
+    (toks : List String) (harg : ∀ t ∈ toks, classify s t = .arg) :
+    parseRaw s toks = .ok [(c.dest, .toks toks)] := by
+  have hrs : ∀ b, requiredSeen s b = true := by
+    intro b
+    unfold requiredSeen
+    rw [List.all_eq_true]
+    intro o ho
+    cases hpo : o.positional
+    · simp [hreq o ho hpo]
+    · simp
+  unfold parseRaw
+  rw [dnum_segments_args s toks harg, hp]
+  simp [mutexOK, dnum_consumePos_star c ha har, parseSegs, hrs]
+
+theorem dnum_bindOne_one (n : OptSpec) (h1 : n.action ≠ "PHPArgs") (h2 : n.action ≠ "compose_two_parsers")
+    (har : n.arity = .one) (t : String) :
+    bindOne n [t] = match convertOne n t with | some v => .ok [(n.dest, v)] | none => .error .cliError := by
+  unfold bindOne
+  simp only [h1, h2, har, beq_iff_eq, if_false]
+  cases convertOne _ t <;> rfl
+
+theorem dnum_bindOne_opt1 (d : OptSpec) (h1 : d.action ≠ "PHPArgs") (h2 : d.action ≠ "compose_two_parsers")
+    (har : d.arity = .opt) (t : String) :
+    bindOne d [t] = match convertOne d t with | some v => .ok [(d.dest, v)] | none => .error .cliError := by
+  unfold bindOne
+  simp only [h1, h2, har, beq_iff_eq, if_false]
+  cases convertOne _ t <;> rfl
+
+theorem dnum_bindOne_opt0 (d : OptSpec) (h1 : d.action ≠ "PHPArgs") (h2 : d.action ≠ "compose_two_parsers")
+    (har : d.arity = .opt) : bindOne d [] = .ok [(d.dest, d.defaultVal)] := by
+  unfold bindOne
+  simp [h1, h2, har]
+
+theorem dnum_consumePos_nd (n d : OptSpec) (hn1 : n.action ≠ "PHPArgs")
+    (hn2 : n.action ≠ "compose_two_parsers") (hd1 : d.action ≠ "PHPArgs")
+    (hd2 : d.action ≠ "compose_two_parsers") (hna : n.arity = .one) (hda : d.arity = .opt)
+    (t0 : String) (rest : List String) :
+    consumePos [n, d] (t0 :: rest) true =
+      match rest with
+      | [] =>
+        (match convertOne n t0 with
+         | some v => .ok ([], [(d.dest, d.defaultVal), (n.dest, v)])
+         | none => .error .cliError)
+      | [t1] =>
+        (match convertOne n t0, convertOne d t1 with
+         | some v0, some v1 => .ok ([], [(d.dest, v1), (n.dest, v0)])
+         | _, _ => .error .cliError)
+      | _ :: _ :: _ => .error .cliError := by
+  unfold consumePos
+  match rest with
+  | [] =>
+    simp [matchPartial, counts, hna, hda, applyPos, minArgs, dnum_bindOne_one n hn1 hn2 hna,
+      dnum_bindOne_opt0 d hd1 hd2 hda]
+    cases convertOne n t0 <;> rfl
+  | [t1] =>
+    simp [matchPartial, counts, hna, hda, applyPos, minArgs, dnum_bindOne_one n hn1 hn2 hna,
+      dnum_bindOne_opt1 d hd1 hd2 hda]
+    cases convertOne n t0 <;> cases convertOne d t1 <;> rfl
+  | t1 :: t2 :: r =>
+    simp [matchPartial, counts, hna, hda, minArgs]
+
+theorem dnum_parseArgs_compose (s : CliSpec) (c n d : OptSpec) (h : numericBranch s c n d)
+    (t0 : String) (rest : List String) (hnum : pyFloatOk t0 = true)
+    (harg : ∀ t ∈ t0 :: rest, classify s t = .arg) :
+    parseArgs s (t0 :: rest) =
+      match consumePos [n, d] (t0 :: rest) true with
+      | .error e => .error e
+      | .ok (r, b) => if r.isEmpty then .ok (b ++ []) else .error .cliError := by
+  obtain ⟨hp, ha, har, _, ⟨p1, p2, hcomp, hsub⟩, hco, _, _, _, _, _, _, _, hreq⟩ := h
+  unfold parseArgs
+  rw [dnum_parseRaw_compose s c hp ha har hreq _ harg]
+  simp only [expand, hco, composeParse, hcomp, hnum, if_true, hsub]
+  cases consumePos [n, d] (t0 :: rest) true with
+  | error e => rfl
+  | ok x =>
+    obtain ⟨r, b⟩ := x
+    simp only
+    cases r.isEmpty <;> rfl
+
+theorem compose_numeric_no_swap (s : CliSpec) (c n d : OptSpec) (h : numericBranch s c n d)
+    (toks : List String) (t0 : String) (rest : List String) (htoks : toks = t0 :: rest)
+    (hnum : pyFloatOk t0 = true) (harg : ∀ t ∈ toks, classify s t = .arg) :
+    (∀ b, parseArgs s toks = .ok b →
+       (rest = [] ∧ b.lookup n.dest = convertOne n t0 ∧ b.lookup d.dest = some d.defaultVal) ∨
+       (∃ t1, rest = [t1] ∧ b.lookup n.dest = convertOne n t0 ∧ b.lookup d.dest = convertOne d t1)) ∧
+    ((∃ b, parseArgs s toks = .ok b) ↔
+       ((rest = [] ∧ (convertOne n t0).isSome) ∨
+        (∃ t1, rest = [t1] ∧ (convertOne n t0).isSome ∧ (convertOne d t1).isSome))) := by
+  subst htoks
+  have hpa := dnum_parseArgs_compose s c n d h t0 rest hnum harg
+  obtain ⟨_, _, _, _, _, _, hna, hda, hn1, hn2, hd1, hd2, hne, _⟩ := h
+  rw [dnum_consumePos_nd n d hn1 hn2 hd1 hd2 hna hda] at hpa
+  have hne1 : (n.dest == d.dest) = false := by simp [hne]
+  rw [hpa]
+  match rest with
+  | [] =>
+    cases hc : convertOne n t0 with
+    | none => simp
+    | some v => simp [List.lookup, hne1]
+  | [t1] =>
+    simp only []
+    cases hc : convertOne n t0 with
+    | none => simp
+    | some v0 =>
+      cases hc1 : convertOne d t1 with
+      | none => simp [hc1]
+      | some v1 => simp [List.lookup, hne1, hc1]
+  | t1 :: t2 :: r => simp
 
 end Cnfgen.Cli
